@@ -83,6 +83,20 @@ TileLinearCases ==
    /\ TileEmit("LinearRegressor", lr, <<A>>, SemLinearRegressor(A, lr), {1}, LAMBDA ins : SemLinearRegressor(ins[1], lr))
    /\ TileEmit("Scaler", sc, <<A>>, SemScaler(A, sc), {1}, LAMBDA ins : SemScaler(ins[1], sc))
 
+\* integer operands near the ends of their range: a dot product wraps around (two's complement), it is not saturated or rounded
+\* through a wider float; an integer element type may also be refused
+WrapCases ==
+   \A dt \in {"i32", "i64", "u32", "u64"} :
+      LET big == IF dt \in SIntTypes THEN IMaxS ELSE IMaxU
+          A == T(dt, <<1, 2>>, <<big, Fin(1)>>) B == T(dt, <<2, 1>>, <<Fin(2), Fin(3)>>)
+          A2 == T(dt, <<2, 2>>, <<big, Fin(1), Fin(3), big>>) B2 == T(dt, <<2, 2>>, <<Fin(2), big, Fin(3), Fin(-1)>>)
+          dot(a1, b1, a2, b2) == IAdd(IMul(a1, b1), IMul(a2, b2))
+          v1 == T(dt, <<1, 1>>, <<dot(big, Fin(2), Fin(1), Fin(3))>>)
+          v2 == T(dt, <<2, 2>>, <<dot(big, Fin(2), Fin(1), Fin(3)), dot(big, big, Fin(1), Fin(-1)), dot(Fin(3), Fin(2), big, Fin(3)), dot(Fin(3), big, big, Fin(-1))>>) IN
+      /\ P(CaseRec("wrap", "MatMul", <<>>, <<A, B>>, ValueOrError(<<v1>>), <<"value_or_error", dt, "wrap_around">>))
+      /\ P(CaseRec("wrap", "MatMul", <<>>, <<A2, B2>>, ValueOrError(<<v2>>), <<"value_or_error", dt, "wrap_around">>))
+      /\ P(CaseRec("wrap", "Gemm", <<>>, <<A2, B2>>, ValueOrError(<<v2>>), <<"value_or_error", dt, "wrap_around">>))
+
 \* LinearRegressor: coefficients are distinct small integers
 LRCase(N, F, Tg, ik, dt) ==
    LET X == Iota(dt, <<N, F>>, 0)
@@ -126,7 +140,7 @@ Emit ==
                     /\ \A dt \in {"f64", "i32", "i64", "u32", "u64"}, ck \in {"absent", "N", "MN"} :
                           P(GemmCase(st.tA, st.tB, <<Fin(2), Fin(-1)>>, ck, 2, 3, 2, dt, FALSE)) /\ P(GemmCase(st.tA, st.tB, <<Fin(1), Fin(1)>>, ck, 2, 3, 2, dt, TRUE))
                     /\ P(GemmBadInner("f32")))
-              /\ (st.M = 1 /\ st.K = 1 /\ st.N = 1 /\ ~st.tA /\ ~st.tB => GemmMagCases /\ LongLinearCases /\ TileLinearCases)
+              /\ (st.M = 1 /\ st.K = 1 /\ st.N = 1 /\ ~st.tA /\ ~st.tB => GemmMagCases /\ LongLinearCases /\ TileLinearCases /\ WrapCases)
         [] st.fam = "linreg" ->
               /\ \A ik \in {"absent", "one", "targets", "bad"} : P(LRCase(st.N, st.F, st.Tg, ik, "f32"))
               /\ (st.N = 2 /\ st.F = 2 => \A dt \in {"f64", "i32", "i64"} : P(LRCase(2, 2, st.Tg, "targets", dt)))
